@@ -132,7 +132,9 @@ def m_live(viol, world, layer):
     n = 0
     for s in world.stacks:
         n += 1
-        if s.job_alive() and not s.job_parked_with_timeout():
+        if s.job_alive() and getattr(s.job_state, 'blocked_in_put', False):
+            viol.add('job_blocked', '%s: job thread is blocked in put() on a full bounded queue (it is the only consumer: dead-lock)' % s.name, layer=layer)
+        elif s.job_alive() and not s.job_parked_with_timeout():
             st = s.job_state
             viol.add('job_not_parked', '%s: job thread is not parked in a wait with a positive time-out (last waits %s)'
                      % (s.name, st.waits[-3:]), layer=layer)
